@@ -151,7 +151,7 @@ def finish(ctx, lean):
         json.dump(jsonable(ev), f, indent=1)
     for ln in lines:
         print(ln)
-    print(f"[{ctx.prop}] tier={ctx.tier} seed={ctx.seed} lean={'ok' if (lean or {}).get('ok') else 'BROKEN'} "
+    print(f"[{ctx.prop}] tier={ctx.tier} seed={ctx.seed} level={ctx.level} lean={'skipped' if lean is None else ('ok' if lean.get('ok') else 'BROKEN')} "
           f"theorems={cov['discharged']}/{cov['obligations']} evaluations={cov['evaluations']} "
           f"nontrivial={cov['distinct_nontrivial']} model-vs-impl={cov['disagreements_checked']} "
           f"disagreements={len(ctx.disagreements)} violations={len(ctx.violations)} wall={wall}s")
@@ -173,11 +173,16 @@ def main(argv):
     if a.replay:
         payload = json.load(open(a.replay))
         return mod.replay(payload)
-    ctx = Ctx(a.prop, a.tier, seed, level=getattr(mod, "LEVEL", "proof"))
+    from . import leangate
+
+    level = getattr(mod, "LEVEL", "proof")
+    has_theorems = bool(leangate.theorems_of(a.prop))
+    if not has_theorems and level == "proof":
+        level = "exploration"      # no theorem file yet for this property: claim only what is there (see MANIFEST level_claimed)
+    ctx = Ctx(a.prop, a.tier, seed, level=level)
     lean = None
     try:
         if not a.no_lean:
-            from . import leangate
 
             lean = leangate.gate(a.prop, thorough=ctx.thorough())
             if not lean["ok"]:
